@@ -79,6 +79,30 @@ class Ctx:
                                 "expected": clip(expected, 2000), "observed": clip(observed, 2000), "seed": self.seed,
                                 "replay_cmd": "echo '<request>' | %s   (or the model driver %s for model-side requests)" % (C.HARNESS, C.DRIVER)})
 
+    def replay_known(self):
+        """corpus first: every recorded finding of this property is replayed explicitly.
+        fixed entries must pass (else the defect is back: ordinary violation); known entries that
+        still fail print KNOWN-FINDING and are otherwise ignored."""
+        import re
+        es = [e for e in self.known if e.get("match", {}).get("request") and e["match"].get("ok_regex")]
+        if not es:
+            return
+        ans = C.harness([e["match"]["request"] for e in es], timeout=900, mem_kb=24 * 1024 * 1024)
+        for e, a in zip(es, ans):
+            self.case(e["match"]["request"], ["corpus"])
+            ok = re.search(e["match"]["ok_regex"], a) is not None
+            if ok:
+                continue
+            if e.get("status") == "known":
+                line = "KNOWN-FINDING: property=%s %s" % (self.pid, e.get("what", ""))
+                if line not in self.known_printed:
+                    self.known_printed.append(line)
+                    C.log(line)
+            else:
+                self.violations.append({"property": self.pid, "kind": "impl-failing-input", "what": "a defect recorded as fixed is back: " + e.get("what", ""),
+                                        "request": e["match"]["request"], "expected": "answer matching /%s/" % e["match"]["ok_regex"],
+                                        "observed": clip(a, 2000), "seed": self.seed})
+
     # -- verdict -------------------------------------------------------------------------
     def finish(self, wall):
         rc = 0
